@@ -68,15 +68,30 @@ def enumerate_macrovectors():
     return chk, feasible
 
 
-def fork(digits):
+def fork(digits, d4=None):
     chk = Check("C02")
     sess = Session(npat=512)
     vars_ = sess.assign_vars(4)
     smod, d, e, items = spec_macrovector(sess, vars_)
     g = mv_guard(sess, items, digits)
     nsamp = 192 if C.tier() == "quick" else 512
-    sess.m.restrict(g, nsamples=nsamp)
     label = "mv=" + "".join(str(x) for x in digits)
+    if d4 is not None:
+        # large macrovectors are split further on the EQ4 severity distance (complete: the
+        # sub-cases range over every value the distance can take, infeasible ones are vacuous)
+        du, raised = sess.call(smod.globals["distance"], [e, smod.globals["EQ4_MAX"][digits[3]], ["SC", "SI", "SA"]])
+        if isinstance(d4, tuple):
+            # "rest": every value of the distance not covered by the numbered sub-forks
+            g2 = sess.m.AND(g, sess.m.NOT(sess.m.or_all([sess.vc.guard_eq(du, k) for k in d4[1]])))
+        else:
+            g2 = sess.m.AND(g, sess.vc.guard_eq(du, d4))
+        if sess.m.is_sat(g2, "vacuity") is not True:
+            chk.extra["vacuous_subforks"] = 1
+            chk.absorb(sess)
+            return chk.to_dict()
+        g = g2
+        label += "[d4=%s]" % (d4 if not isinstance(d4, tuple) else "rest")
+    sess.m.restrict(g, nsamples=nsamp)
     t0 = time.time()
     # implementation (real constructor on the M-ASSIGN vector, under the fork's assumption)
     vec = sess.vector_from_vars(4, vars_)
@@ -158,7 +173,20 @@ def conformance4(sess, chk, impl_v, n):
 def main(pid="C02"):
     chk, feasible = C.guarded(enumerate_macrovectors, ()) if False else enumerate_macrovectors()
     chk.pid = pid
-    tasks = [(d,) for d in feasible]
+    from spec import cvss4_spec as S4
+
+    tasks = []
+    for d in feasible:
+        if S4.EQ4_DEPTH[d[3]] * S4.EQ36_DEPTH[(d[2], d[5])] >= 35:
+            # None: no highest-severity vector qualifies (must be infeasible; covered by the VC
+            # in each sub-fork); distances 0 .. depth
+            ks = list(range(0, S4.EQ4_DEPTH[d[3]] + 3))
+            for k in ks:
+                tasks.append((d, k))
+            tasks.append((d, ("rest", ks)))
+        else:
+            tasks.append((d,))
+    chk.extra["fork_tasks"] = len(tasks)
     results = C.run_tasks(fork, tasks)
     for r in results:
         chk.absorb_dict(r)
